@@ -89,6 +89,7 @@ inductive Out where
   | forward (r : Req) (u : Name) (t : Nat)      -- AUTH_AUTHENTICATED at time t: the request goes on as user u
   | submit (id : Nat) (u : Name) (p : Pw) (r : Req)   -- line written to the helper
   | queued (r : Req)                            -- waits for somebody else's lookup
+  | tooLong (r : Req)                           -- helper line does not fit: not submitted, 407 (nothing logged as user)
   | verdict (id : Nat) (u : Name) (p : Pw) (ok : Bool) (t : Nat)   -- helper answer consumed for lookup id (which asked about u,p)
   | decoded (r : Req) (how : Nat)               -- 0 new record, 1 cached same password, 2 cached password replaced, 3 own record (fresh variant)
 deriving DecidableEq, Repr
@@ -138,9 +139,26 @@ def submitLookup (s : St) (i : Nat) (r : Req) : St :=
   setRec { s with lookups := s.lookups ++ [{ id := s.nextId, ri := i, pw := (s.recs i).passwd, req := r }], nextId := s.nextId + 1 }
     i { s.recs i with cred := .pending }
 
-/-- `Auth::Basic::UserRequest::startHelperLookup` -/
+/-- `rfc1738_escape` (RFC1738_ESCAPE_UNSAFE|RFC1738_ESCAPE_CTRLS, lib/rfc1738.cc) writes `%XX` for this octet -/
+def rfc1738Escaped (c : UInt8) : Bool :=
+  !((97 ≤ c && c ≤ 122) || (65 ≤ c && c ≤ 90) || (48 ≤ c && c ≤ 57)) &&
+  ([0x3C, 0x3E, 0x22, 0x23, 0x7B, 0x7D, 0x7C, 0x5C, 0x5E, 0x7E, 0x5B, 0x5D, 0x60, 0x27, 0x25].contains c || c ≤ 0x20 || 0x7F ≤ c)
+
+/-- `strlen(rfc1738_escape(b))` -/
+def escLen : Bytes → Nat
+  | [] => 0
+  | c :: rest => (if rfc1738Escaped c then 3 else 1) + escLen rest
+
+/-- `startHelperLookup`: the line `user SP password LF` (no key_extras) does not fit `buf[HELPER_INPUT_BUFFER]`
+(`snprintf` result >= sizeof(buf)) -/
+def tooLong (u : Name) (p : Pw) : Bool := decide (Gen.AuthBasic.helperInputBuffer ≤ escLen u + escLen p + 2)
+
+/-- `Auth::Basic::UserRequest::startHelperLookup`; a line that does not fit the helper buffer is not submitted: the caller is
+resumed at once, the record stays as it is (nothing is Pending, so nobody can queue behind a lookup that never happens) and the
+request is challenged -/
 def startLookup (s : St) (i : Nat) (r : Req) : St × List Out :=
   if (s.recs i).cred = .pending then (enqueue s i r, [.queued r])
+  else if tooLong (s.recs i).user (s.recs i).passwd then (s, [.tooLong r])
   else (submitLookup s i r, [.submit s.nextId (s.recs i).user (s.recs i).passwd r])
 
 /-- the tail of `Auth::UserRequest::authenticate` once the request is linked to record i
